@@ -489,7 +489,7 @@ def rule_wire_units(ctx):
         return out
 
     def default_of(fn, key):
-        for b in ast.walk(fn):
+        for b in (x for g in reach(fn) for x in ast.walk(g)):
             if isinstance(b, ast.BoolOp) and isinstance(b.op, ast.Or) and isinstance(b.values[0], ast.Subscript) and isinstance(b.values[0].slice, ast.Constant) \
                     and b.values[0].slice.value == key and isinstance(b.values[-1], ast.Constant):
                 return b.values[-1].value
